@@ -301,6 +301,44 @@ PROPS = {
         "level_note": "Trusted: Coq kernel, extraction, harness. Modelled, not verified: util.LimitedPool, util.Zip/Unzip, "
                       "protocol.EncodeSlicePointer/PutData, server typePools and handleRequest's Get/Put calls.",
     },
+    "C15": {
+        "rule": "exhaustive matrix: 6 stage configurations (authentication alone, + accept veto, + post-read reject, + pre-call "
+                "reject, none, post-read + pre-call) x ingress {native, gateway, JSON-RPC} x token {missing, wrong, right} x "
+                "{heartbeat, one-way} flag combinations x target {reflected method, registered function, unknown service}; plus every "
+                "malformed gateway header and the malformed JSON-RPC method; one fresh connection per request; distinct = distinct "
+                "model-input line (all are non-trivial)",
+        "theorems": ["C15_rejected_never_reaches_a_handler", "C15_native_auth_failure_closes", "C15_heartbeat_never_reaches_a_handler"],
+        "assumptions": ["a post-read plugin's rejection is a generic error (the rate limiter's ErrReqReachLimit answers and continues)",
+                        "the stock plugins under serverplugin/ are exercised through the same stage interfaces, not modelled one by one",
+                        "net/http, cmux and httprouter are externals"],
+        "trusted": ["harness/cmd/vh/c15.go: a real server on loopback TCP (port multiplexer, HTTP gateway, JSON-RPC endpoint running), "
+                    "raw TCP peers over refcodec, net/http clients with keep-alives disabled (one fresh connection per request)"],
+        "level_text": "Theorem over the whole (finite) space of ingresses, stage configurations, tokens and flags, and for every service "
+                      "table and handler: a rejected connection or request runs no handler and yields no result; a native connection "
+                      "that failed authentication is closed; a heartbeat flag never opens a path to a handler. The model is compared "
+                      "with a real server on loopback TCP over the exhaustive matrix.",
+        "level_note": "Trusted: Coq kernel, extraction, TCP harness. Modelled, not verified: serveConn's auth/plugin branches, "
+                      "handleGatewayRequest, handleJSONRPCRequest, the accept filter of the HTTP sub-listeners.",
+    },
+    "C19": {
+        "rule": "120 (thorough 3000) random requests (existing / unknown / dotted service names, unknown methods, handler errors with "
+                "header-safe texts, arguments of the wrong type, 0-3 metadata entries with URL-unsafe characters, arbitrary message ids, "
+                "authentication on or off) each sent through three fresh connections - native, HTTP gateway, JSON-RPC - and compared "
+                "pairwise (reply, error text, metadata seen by the handler, response metadata); plus every malformed gateway header; "
+                "distinct = distinct model-input line",
+        "theorems": ["C19_http_ingress_equals_native", "C19_malformed_rejected"],
+        "assumptions": ["router handlers (AddHandler) are outside the quantifier: they write to the native connection",
+                        "error texts are header-safe (no CR/LF, no leading/trailing blanks); gateway compression headers are outside "
+                        "the property", "url.QueryEscape / ParseQuery round-trip the metadata (a premise; exercised)"],
+        "trusted": ["harness/cmd/vh/c15.go: a real server on loopback TCP (port multiplexer, HTTP gateway, JSON-RPC endpoint running), "
+                    "raw TCP peers over refcodec, net/http clients with keep-alives disabled (one fresh connection per request)"],
+        "level_text": "Theorem: for every service table, handler and stage configuration, a two-way request that no stage rejects yields "
+                      "through the gateway and through JSON-RPC exactly the native outcome (same reply or same error text, same handler "
+                      "invocation), and malformed gateway / JSON-RPC requests are rejected without reaching a handler. Compared pairwise "
+                      "on a real server over three fresh connections per request.",
+        "level_note": "Trusted: Coq kernel, extraction, TCP harness, net/http. Modelled, not verified: gateway.go, converter.go, "
+                      "jsonrpc2.go.",
+    },
     "C12": {
         "rule": "exhaustive weight vectors (quick: n<=3,w<=4 and n=4,w<=2; thorough: n<=4,w<=6) from a random window "
                 "offset, round-robin sets n=0..8 from every cursor offset, and random update/selection histories over a "
